@@ -24,6 +24,7 @@ std::string dumpComponent(const libcellml::ComponentPtr &c, const DumpOpts &o = 
 std::string dumpUnits(const libcellml::UnitsPtr &u, const DumpOpts &o = DumpOpts());
 std::string dumpVariable(const libcellml::VariablePtr &v, const DumpOpts &o = DumpOpts());
 std::string dumpReset(const libcellml::ResetPtr &r, const DumpOpts &o = DumpOpts());
+std::string itemString(const libcellml::AnyCellmlElementPtr &item);
 std::string dumpIssues(const libcellml::LoggerPtr &logger, bool withItems = true);
 std::string dumpAnalyserModel(const libcellml::AnalyserModelPtr &am);
 
